@@ -30,6 +30,7 @@ func runC15(p *eng.Prog, r *eng.Report, tier string) {
 	c15CarrierTypes(c, "C15.24")
 	c15HandlerEncoderStays(c, "C15.28")
 	c15MessageCarrierDecodedWhole(c, "C15.29")
+	c15OpenIsASetRequest(c, "C15.30")
 	c.r.Floor("C15.27", "decode targets with namespace-blind attribute tags in ibb", attrTagsDecodeOwnAttributes(c, "C15.27", "ibb"), 2)
 	c.r.Floor("C15.25", "blocking channel operations in ibb", lockHeldAcrossChannelOp(c, "C15.25", "ibb."), 3)
 	c15Open(c)
@@ -1356,4 +1357,39 @@ func c15MessageCarrierDecodedWhole(c *cx, id string) {
 	c.r.Floor(id, "decodes in HandleMessage", n, 1)
 	nt := len(f.Calls("encoding/xml.Decoder.Token")) + len(f.Calls("encoding/xml.TokenReader.Token"))
 	c.r.Check(id, f, "tokens popped before the decode", "K: none (the decoder sees the message from its start element)", f.Pos(), nt == 0, "HandleMessage reads tokens itself before decoding")
+}
+
+// c15OpenIsASetRequest (C15.30 / C06.34): the open request is an IQ of type set,
+// whatever type the IQ has that the caller of OpenIQ supplied: on every path to
+// the call that sends it, open stores stanza.SetIQ into the request's type. A
+// default ("if the type is empty") lets a caller's type=result go out: no
+// answer ever comes and Open blocks until its context ends; with type=get the
+// peer answers with an error a stream that the local side has registered.
+func c15OpenIsASetRequest(c *cx, id string) {
+	f := c.fn(id, "ibb", "open")
+	if f == nil {
+		return
+	}
+	g := f.Graph()
+	n := 0
+	isSet := func(q eng.Point, nd ast.Node) bool {
+		as, ok := nd.(*ast.AssignStmt)
+		if !ok || len(as.Lhs) != len(as.Rhs) {
+			return false
+		}
+		for i, l := range as.Lhs {
+			if k, _ := f.FieldClass(l); k == "stanza.IQ.Type" && f.Norm(as.Rhs[i], nil) == "stanza.SetIQ" {
+				return true
+			}
+		}
+		return false
+	}
+	for _, callee := range []string{"xmpp.Session.SendIQ", "xmpp.Session.SendIQElement", "xmpp.Session.UnmarshalIQ", "xmpp.Session.UnmarshalIQElement"} {
+		for _, cl := range f.Calls(callee) {
+			n++
+			pt, _ := g.Where(cl)
+			c.r.Check(id, f, "type of the open request", "O: every path to the send stores stanza.SetIQ into the request's type", cl.Pos(), g.MustPassBefore(g.Entry(), pt, isSet, nil), "the request can be sent with the type the caller supplied")
+		}
+	}
+	c.r.Floor(id, "sends of the open request", n, 1)
 }
